@@ -39,7 +39,7 @@ func init() {
 			"buffer is full; capacities {1,2,8,64,10000}) enumerated within each group of runs, x schedule policy x fault instant; after the fault a fair schedule with the clock advancing at quiescence: " +
 			"RunNamedPipe must return within 5 simulated seconds and 50000 steps, with a non-nil error for failure causes; non-trivial = the fault fired while the daemon was running (and, for saturated, with the buffer full); " +
 			"distinct = distinct (cause, load, capacity, fault instant, schedule hash)",
-		Quick: 70 * 24, Thorough: 70 * 1500,
+		Quick: 70 * 40, Thorough: 70 * 2500,
 	})
 }
 
